@@ -12,9 +12,10 @@ import (
 )
 
 var Registry = map[string]func(){
-	"ShortLex":  ShortLex,
-	"LangViews": LangViews,
-	"DataHash":  DataHash,
+	"LangViewsInts": LangViewsInts,
+	"ShortLex":      ShortLex,
+	"LangViews":     LangViews,
+	"DataHash":      DataHash,
 }
 
 // ShortLex: -1/0/1 by length first, then lexicographically; a strict weak order.
@@ -168,4 +169,72 @@ func DataHash() {
 	default:
 		sym.Assert((err == nil) == genuine, "accepted iff the declared hash is H(original redeemers || original datums || language views)")
 	}
+}
+
+// refInt: RFC 8949 preferred (shortest) encoding of an integer, written independently.
+func refInt(v int64) []byte {
+	major, arg := byte(0x00), uint64(v)
+	if v < 0 {
+		major, arg = 0x20, uint64(^v)
+	}
+	n := 0
+	switch {
+	case arg < 24:
+		return []byte{major | byte(arg)}
+	case arg < 1<<8:
+		n = 1
+	case arg < 1<<16:
+		n = 2
+	case arg < 1<<32:
+		n = 4
+	default:
+		n = 8
+	}
+	out := []byte{major | byte(24+map[int]int{1: 0, 2: 1, 4: 2, 8: 3}[n])}
+	for i := n - 1; i >= 0; i-- {
+		out = append(out, byte(arg>>(8*uint(i))))
+	}
+	return out
+}
+
+func refBytesHead(n int) []byte {
+	switch {
+	case n < 24:
+		return []byte{0x40 | byte(n)}
+	case n < 256:
+		return []byte{0x58, byte(n)}
+	}
+	return []byte{0x59, byte(n >> 8), byte(n)}
+}
+
+// LangViewsInts: the language views down to the integer encodings, for one language with a
+// cost model of 1..2 parameters ranging over all of int64: PlutusV1 = {h'00': h'9f <ints> ff'}
+// (double-wrapped, indefinite list), V2..V4 = {v: [ints]}; every parameter in its shortest
+// RFC 8949 form.
+func LangViewsInts() {
+	cbor.VerifPreciseEncode = true
+	v := uint(sym.Param("language"))
+	n := sym.Param("params")
+	var cm []int64
+	for i := 0; i < n; i++ {
+		cm = append(cm, int64(sym.U64("param"+string(rune('0'+i)))))
+	}
+	got, err := common.EncodeLangViews(map[uint]struct{}{v: {}}, map[uint][]int64{v: cm})
+	sym.Reach("decided")
+	sym.Assert(err == nil, "language views encode")
+	var ints []byte
+	for _, x := range cm {
+		ints = append(ints, refInt(x)...)
+	}
+	want := []byte{0xa1}
+	if v == 0 {
+		inner := append(append([]byte{0x9f}, ints...), 0xff)
+		want = append(want, 0x41, 0x00)
+		want = append(want, refBytesHead(len(inner))...)
+		want = append(want, inner...)
+	} else {
+		want = append(want, byte(v), 0x80|byte(n))
+		want = append(want, ints...)
+	}
+	sym.Assert(bytes.Equal(got, want), "language views: every cost-model parameter in its shortest integer form, PlutusV1 as a byte-string-wrapped indefinite list")
 }
